@@ -14,7 +14,8 @@ CLAIMED = {
                      "INIT_V2_SCANNER / SET_V1 stores) equal the CIF 2.0 / 1.1 lexical grammar; every production switch accepts all "
                      "five value-starting token kinds and dispatches them alike; reserved-word recognisers agree. These are necessary "
                      "conditions of correct parsing; the scanner's transitions on arbitrary documents are not decided. "
-                     "Also: the scanner's end-of-input mark (CIF_EOF) is returned by no scan/parse function other than the refill functions (flow-sensitive may-return analysis), and the closing-delimiter run counter of triple-quoted strings is reset by every other character.",
+                     "Also: the scanner's end-of-input mark (CIF_EOF) is returned by no scan/parse function other than the refill functions (flow-sensitive may-return analysis), and the closing-delimiter run counter of triple-quoted strings is reset by every other character. "
+                     "Also: the two bracket arms of scan_unquoted decide from the same variables.",
                 note=TB + "; the grammar table transcribed in cifsa/rules/c01.py",
                 tech="constant-table reconstruction from AST stores + switch/case-label dispatch analysis on CFGs; may-return value analysis (A1) iterated over the call graph; run-counter reset reachability"),
     "C02": dict(level="other", ref="5 C02",
@@ -23,9 +24,10 @@ CLAIMED = {
                      "every success path and every length-limited primitive compares it with the 2048 limit before emitting "
                      "(path-universal dataflow); delimiter choice has a single source. Round-trip equality is not decided. "
                      "Also: with write_char's arguments substituted, the writers' indexes into the analysed text stay within it and their success tests are satisfiable; magic comparisons use the full code for '== 0' and the version-independent prefix for '!= 0'. "
-                     "Also (text fields and layout): every logical line of a folded/prefixed text field gets its line terminator, a protected line its empty continuation line; the prefix/refusal decision depends on a leading semicolon and the fold decision on the prefix length; %S precisions are counted in UChar units; no local copy of last_column is used after output moved the column.",
+                     "Also (text fields and layout): every logical line of a folded/prefixed text field gets its line terminator, a protected line its empty continuation line; the prefix/refusal decision depends on a leading semicolon and the fold decision on the prefix length; %S precisions are counted in UChar units; no local copy of last_column is used after output moved the column. "
+                     "Also: range tests on surrogates cut exactly at the class boundaries; the tracked column advances by what each counted emission wrote.",
                 note=TB + "; ICU u_fprintf/u_fputc return conventions (count written / character written)",
-                tech="table agreement + emission/accounting typestate dataflow + who-may-call on the call graph; inter-procedural linear substitution of call arguments; per-iteration must-pass-through with branch facts; dependence closure incl. control dependence; staleness may-dataflow; units of printf precisions"),
+                tech="table agreement + emission/accounting typestate dataflow + who-may-call on the call graph; inter-procedural linear substitution of call arguments; per-iteration must-pass-through with branch facts; dependence closure incl. control dependence; staleness may-dataflow; units of printf precisions; boundary-table check of relational comparisons; format-string accounting"),
     "C03": dict(level="other", ref="5 C03",
                 text="Structural form of the error-callback contract, path-universal over all 50 callback sites of the parser and up the "
                      "call chain: a non-zero callback result (or failing callee result) reaches a return of that very value with no "
@@ -33,10 +35,11 @@ CLAIMED = {
                      "input-defect code a library call may return is routed to the callback or frozen in a cannot-occur table with "
                      "its reason. Termination, memory safety on arbitrary bytes and post-abort consistency are not decided. "
                      "Also (termination/bounds, necessary conditions only): no loop of the parser units is idempotent, and no read-buffer pointer is dereferenced under '<=' against an exclusive end. "
-                     "Also: no parser function returns the scanner's private CIF_EOF mark (a defined result code is returned).",
+                     "Also: no parser function returns the scanner's private CIF_EOF mark (a defined result code is returned). "
+                     "Also: index variables of signed type into fixed-size tables are non-negative by construction or tested.",
                 note=TB + "; flow-insensitive may-return-code summaries (over-approximate); the cannot-occur table was triaged by reading "
                      "each call site; 5 genuine defects are recorded as known findings",
-                tech="verdict-propagation typestate dataflow + may-return-code summaries over the call graph; natural-loop read/write analysis; may-return value analysis (A1) over the call graph"),
+                tech="verdict-propagation typestate dataflow + may-return-code summaries over the call graph; natural-loop read/write analysis; may-return value analysis (A1) over the call graph; reaching-definition sign analysis of index variables"),
     "C04": dict(level="other", ref="5 C04",
                 text="The schema and statement layer the data model rests on: SQLite's own parser run on the embedded DDL and on all "
                      "embedded statements (compiling program text in an empty in-memory database, not running cif_api) yields keys, "
@@ -44,7 +47,8 @@ CLAIMED = {
                      "parameters are bound on every path to each step (dataflow); trigger messages equal the C strings compared with "
                      "sqlite3_errmsg. Results of arbitrary API histories are not decided. "
                      "Every reference to loop / loop_item / item_value in every query block of the embedded statements is tied to a container (R5). "
-                     "Also: every decision 'this category is the scalar category' answers no for a NULL category (three-valued evaluation of the controlling expression, or dominance by a non-NULL test).",
+                     "Also: every decision 'this category is the scalar category' answers no for a NULL category (three-valued evaluation of the controlling expression, or dominance by a non-NULL test). "
+                     "Also: the look-up by code of a table whose creation has a lenient (non-validating) mode normalises its key without validating.",
                 note=TB + "; SQLite (python3 sqlite3 module) as parser of the embedded SQL; a light tokenizer maps ?-parameters to columns",
                 tech="static analysis of embedded SQL + bind/column site join + must-bind dataflow; three-valued evaluation of branch conditions"),
     "C05": dict(level="proof", ref="5 C05",
@@ -60,18 +64,20 @@ CLAIMED = {
                 text="Structural life-cycle of packet iterators on the CFGs of cif_loop_get_packets, cif_pktitr_* and every internal "
                      "iterator user: transaction contract per exit, stale/misuse guards dominate every modifying statement, "
                      "bookkeeping stores precede success exits, savepoints paired, users close what they open. Necessary conditions "
-                     "of the property; once-only delivery of packets depends on SQL row grouping at run time and is not decided.",
+                     "of the property; once-only delivery of packets depends on SQL row grouping at run time and is not decided. "
+                     "Also: no HASH_ITER body writes the iteration's look-ahead variable.",
                 note=TB + "; SQLite transaction/savepoint semantics",
-                tech="typestate dataflow + dominance / must-pass-through queries on clang CFGs"),
+                tech="typestate dataflow + dominance / must-pass-through queries on clang CFGs; loop-body write sets for uthash iterations"),
     "C07": dict(level="other", ref="5 C07",
                 text="Agreement of the two hand-written codecs: each value field is read (GET_VALUE_PROPS) from the column it is bound to "
                      "(SET_VALUE_PROPS) for every writer x reader statement, resolved through the statements' own column lists; "
                      "serialise/deserialise pairs move the same width sequences and nest the same codecs; table flags agree; "
                      "SQLITE_STATIC binds outlive the step; buffer primitives clamp. Equality of round-tripped values is not decided. "
                      "Also: no storage loop is idempotent (the buffer-growth loop advances); an attribute read back from storage is not overwritten by a later callee's constant store (mod-set summaries). "
-                     "Also: serialiser and deserialiser agree on which field each string position holds; the sign of a number (not stored) is recomputed from the text.",
+                     "Also: serialiser and deserialiser agree on which field each string position holds; the sign of a number (not stored) is recomputed from the text. "
+                     "Also: cif_buf_write copies only where the capacity is known to cover position + len (must-fact established by the growth loop's exit test).",
                 note=TB + "; SQLite as parser of the embedded SQL",
-                tech="writer/reader table extraction from macro expansions in the AST + agreement checks; loop-carried-state analysis + last-store mod-set summaries over the call graph; positional field correspondence through locals"),
+                tech="writer/reader table extraction from macro expansions in the AST + agreement checks; loop-carried-state analysis + last-store mod-set summaries over the call graph; positional field correspondence through locals; must-fact dataflow on relational facts"),
     "C08": dict(level="other", ref="5 C08",
                 text="Necessary conditions of buffer-boundary independence decided on the scanner's code: may-dataflow over every function "
                      "of parser.c showing that no local derived from the scan window is read after a (transitive) call to "
@@ -80,7 +86,8 @@ CLAIMED = {
                      "when it moves data and decrements the character count once per folded CR LF pair. Value-level arithmetic of the "
                      "folding and alignment independence in general are not decided. "
                      "Also: per-character scan state is not reset on the refill path; every character delivered by the character source is accounted in buffer_limit; a CR ending a read is remembered in the scanner. "
-                     "Also: the byte-to-character source is marked drained only on paths where the converter status excludes U_BUFFER_OVERFLOW_ERROR.",
+                     "Also: the byte-to-character source is marked drained only on paths where the converter status excludes U_BUFFER_OVERFLOW_ERROR. "
+                     "Also: after get_more_chars moved kept data, tvalue_start / next_char are re-based with distances measured on the old window.",
                 note=TB + "; functions that may refill = transitive callers of get_more_chars within parser.c",
                 tech="staleness may-dataflow + must-pass-through / pairing queries on CFGs; loop nesting + upward-exposed-use analysis; guard-edge reachability from the conversion call"),
     "C09": dict(level="other", ref="5 C09",
@@ -89,16 +96,18 @@ CLAIMED = {
                      "already-normalised parameter whose call sites are checked recursively; cif_normalize runs NFD -> case fold -> "
                      "NFC chained through its buffers, and the validating variants validate first. What ICU computes and the per-code-"
                      "point accept/reject boundary are not decided. "
-                     "Also: data names are (re-)validated by the data-name normaliser and codes by the code normaliser, decided from the tables each function's statements touch.",
+                     "Also: data names are (re-)validated by the data-name normaliser and codes by the code normaliser, decided from the tables each function's statements touch. "
+                     "Also: range tests on code units cut exactly at the boundaries of the surrogate and non-character classes.",
                 note=TB + "; SQLite as parser of the embedded SQL; frozen already-normalised parameter table (DESIGN.md A.3)",
-                tech="who-may-reach / must-pass-through over call graph and bind sites + call-order check; statement-table domain inference per function"),
+                tech="who-may-reach / must-pass-through over call graph and bind sites + call-order check; statement-table domain inference per function; boundary-table check of relational comparisons"),
     "C10": dict(level="other", ref="5 C10",
                 text="NARROW CLAIM: only the refusal-atomicity clause ('refuses ... without modifying the value') is decided, as a "
                      "reachability obligation on the CFGs of cif_value_parse_numb and cif_value_init_numb (every store through the "
                      "target value is followed only by `return CIF_OK`), plus the refusal codes. Acceptance of exactly the numeric "
                      "syntax, correct rounding in both directions and formatting quantify over doubles and digit strings; no static "
                      "argument in reach bounds them and they are NOT decided by this check. "
-                     "One lexical necessary condition is added: digit runs are consumed whole (a digit loop is left only on a failed digit test), so well-formed numbers are not refused for an unparsed tail.",
+                     "One lexical necessary condition is added: digit runs are consumed whole (a digit loop is left only on a failed digit test), so well-formed numbers are not refused for an unparsed tail. "
+                     "A second lexical condition: the no-digits test after the mantissa loop discounts the decimal point the loop also consumes.",
                 note=TB + "; everything numeric in C10 is outside the reach of this technique",
                 tech="CFG reachability (store-then-only-success-exit); must-fact dataflow over the scan cursor"),
     "C11": dict(level="other", ref="5 C11",
@@ -106,9 +115,10 @@ CLAIMED = {
                      "(incl. the common 7-character prefix), and CIF_WRONG_ENCODING / the BOM CIF_DISALLOWED_CHAR / SET_V1 sit exactly "
                      "under their version guards. The option x leading-bytes decision table needs evaluation on data: not decided. "
                      "The comparison polarity rule: a '!= 0' test ('no magic code of any version') compares only the version-independent prefix. "
-                     "Also: every expansion of the per-character validation macro reports U+FEFF as CIF_DISALLOWED_CHAR in both dialects (a BOM is accepted only as the first character).",
+                     "Also: every expansion of the per-character validation macro reports U+FEFF as CIF_DISALLOWED_CHAR in both dialects (a BOM is accepted only as the first character). "
+                     "Also: the encoding name of a detected Unicode signature is overwritten only where it was found NULL.",
                 note=TB,
-                tech="constant-table agreement + guard-edge dominance on the CFG; comparison-polarity check; conditional constant propagation of the validation macro over its CFG for chosen code units"),
+                tech="constant-table agreement + guard-edge dominance on the CFG; comparison-polarity check; conditional constant propagation of the validation macro over its CFG for chosen code units; guard-edge reachability from the detection call"),
     "C12": dict(level="other", ref="5 C12",
                 text="Agreement of three finite tables (codes that can reach the callback incl. case labels guarding variable codes; the "
                      "parser's documented recovery table read from parser.c; the 26 defect classes of the property) plus, per documented "
@@ -116,7 +126,8 @@ CLAIMED = {
                      "('assume the missing ...' rows). Reported positions and exact recovered content are not decided; C03 R1/R2 "
                      "(verdict propagation, routing) are prerequisites checked under C03. "
                      "Also: the over-length test allows for a terminator already counted in the column (must-dataflow), and every hand-written move of next_char has the matching column change. "
-                     "Also: the per-character validation macro reports exactly the non-character code units among chosen probes; no BACK_UP is reachable from an end-of-input outcome without a character scanned in between.",
+                     "Also: the per-character validation macro reports exactly the non-character code units among chosen probes; no BACK_UP is reachable from an end-of-input outcome without a character scanned in between. "
+                     "Also: range tests of the scanner cut at class boundaries; a rewind of the scan position to the token start resets the column; copies of the token length are not used after the token was shortened.",
                 note=TB + "; the recovery table in parser.c's documentation comment is the oracle for actions",
                 tech="table agreement + must/may token-consumption queries on CFGs; must-fact dataflow for column/terminator accounting; conditional constant propagation over a macro expansion; fact-consistent reachability"),
     "C13": dict(level="other", ref="5 C13",
@@ -125,7 +136,8 @@ CLAIMED = {
                      "dataflow with the mode as status variable); lists/tables/triple quotes/delimiter-containing text fields are "
                      "refused; the validator's table is the CIF 1.1 character set and is indexed within bounds. "
                      "Also: the analyser statistic behind the text-field refusal (contains_text_delim) is accumulated monotonically. "
-                     "Also the text-field body rules shared with C02 (line terminators, protected lines, leading semicolon, prefix length in the fold decision).",
+                     "Also the text-field body rules shared with C02 (line terminators, protected lines, leading semicolon, prefix length in the fold decision). "
+                     "Also: the tracked column advances by what each counted emission wrote (delimiters included).",
                 note=TB + "; write_context_t.version is constant during a write (checked: stored only by cif_write); one named "
                      "exemption: text of unquoted numbers",
                 tech="typestate dataflow (validated-set) + forwarder summaries + guard dominance + table agreement; monotone-update check; per-iteration must-pass-through with branch facts"),
@@ -135,7 +147,8 @@ CLAIMED = {
                      "answers, and reachability of callback sites under the flags decides the directive obligations; a run with all "
                      "handlers continuing decides start/children/end order (frames before loops); handle arrays and elements are "
                      "released on every path. That the SQL enumerations yield each element once is not decided. "
-                     "Also: a child's SKIP_CURRENT is followed by the same callback sites as its CONTINUE.",
+                     "Also: a child's SKIP_CURRENT is followed by the same callback sites as its CONTINUE. "
+                     "Also: with any subset of handlers absent cif_walk returns no directive.",
                 note=TB + "; a child walk is assumed to return any answer class (each helper is checked under that assumption); absent "
                      "handlers are outside the property",
                 tech="finite-domain abstract interpretation (exhaustive) + must-pass-through release checks; answer-indexed reachability sets"),
@@ -145,10 +158,11 @@ CLAIMED = {
                      "every handler / keyword / data-name callback and every storing call is reached only with depth <= 0; the "
                      "reachable callback sites do not depend on the presence of a target CIF; each production honours its depth "
                      "contract; depth stores have the directive-driven form. Document order and callback arguments are not decided. "
-                     "Also: no bookkeeping variable that decides an error report is assigned only under one outcome of a skip_depth test (skipping does not alter syntax checking).",
+                     "Also: no bookkeeping variable that decides an error report is assigned only under one outcome of a skip_depth test (skipping does not alter syntax checking). "
+                     "Also: no production returns SKIP_CURRENT / SKIP_SIBLINGS received from a handler (may-return analysis); syntax-error callbacks with a literal code are reached with or without a target CIF.",
                 note=TB + "; depth contract of parse_loop_packets assumed (loop-carried pairing keyed on column_index), handlers "
                      "cannot modify the scanner",
-                tech="context-sensitive interval abstract interpretation over clang CFGs (assume-guarantee contracts per production); edge-dominance non-interference check"),
+                tech="context-sensitive interval abstract interpretation over clang CFGs (assume-guarantee contracts per production); edge-dominance non-interference check; A1 may-return value analysis with handler calls as sources"),
     "C16": dict(level="other", ref="5 C16",
                 text="Four rule groups over all units: ownership typestate (per-function dataflow with aliases, allocator/release/transfer "
                      "summary tables: every object a function acquires is released or handed over exactly once on every path; no double "
@@ -156,7 +170,8 @@ CLAIMED = {
                      "process-wide state (path-sensitive setlocale save/restore, no fenv/env/signal calls); unbounded signed decimal "
                      "accumulation and kind-before-fields. Absence of undefined behaviour in general (value ranges of all arithmetic, "
                      "array *elements*, SQLite/ICU internals) is not decided. "
-                     "Also: key/key_orig aliasing discipline at every free; allocation extent vs constant-offset index; realloc growth increment >= 1 (interval evaluation); exclusive-end guards; no pointer field freed while the kind that owns it stays set; a stored `capacity` equals the element count of the block allocated for the same object.",
+                     "Also: key/key_orig aliasing discipline at every free; allocation extent vs constant-offset index; realloc growth increment >= 1 (interval evaluation); exclusive-end guards; no pointer field freed while the kind that owns it stays set; a stored `capacity` equals the element count of the block allocated for the same object. "
+                     "Also: all setlocale calls of the save/switch/restore protocol use one category; every allocation that can be the last before a capacity store agrees with it; no HASH_ITER body writes the look-ahead variable.",
                 note=TB + "; frozen allocator table (own.ALLOC_OUT, 44 entries), 4 named exemptions (DESERIALIZE macro family, parse_table's "
                      "dead allocating arm); linked-list / hash / array elements are outside the alias model; 3 genuine defects are "
                      "recorded as known findings",
@@ -176,7 +191,8 @@ CLAIMED = {
                      "cif_is_reserved_string equal the scanner's token-ending / token-starting classes; reserved words agree with "
                      "next_token; the analyser's length margins equal the writer's delimiter overheads and its delim_length values are "
                      "the writer's case labels. Read-back of each recommended form is not decided. "
-                     "Also: guards on the way to recommending delimiter D test evidence about D only; whole-string statistics are accumulated monotonically; the parser's closing-delimiter counter counts contiguous characters (reset by every other character), as the analyser's u_strstr test assumes.",
+                     "Also: guards on the way to recommending delimiter D test evidence about D only; whole-string statistics are accumulated monotonically; the parser's closing-delimiter counter counts contiguous characters (reset by every other character), as the analyser's u_strstr test assumes. "
+                     "Also: the store that marks a character value unquoted is dominated by a non-zero test of the text's first character.",
                 note=TB,
                 tech="constant/operand extraction from ASTs + table agreement; edge-dominance evidence check"),
     "C19": dict(level="other", ref="5 C19",
